@@ -64,6 +64,7 @@ SALTS = [None, "", "s", "exp_v1", "é", "日本", "a'b", 'x"y', "\\", "a\\nb", "
 NAME_SETS = [
     ["uid"], ["user_id", "country"], ["b", "a"], ["B", "a"], ["a", "B", "_c"], ["order_id", "index", "not_active"],
     ["z", "y", "x", "w"], ["Uid", "uid"], ["a1", "a10", "a2"], ["_", "__", "a"], ["in_", "If", "android"],
+    ["uid", "uid"], ["uid", "country", "uid"], ["b", "a", "b", "a"],
 ]
 
 
@@ -111,7 +112,7 @@ def run(ctx):
     # header sweep: salts x name sets x declaration orders x values
     idx = 0
     for names in NAME_SETS:
-        orders = list(itertools.permutations(range(len(names))))
+        orders = sorted(set(itertools.permutations(range(len(names)))))
         if len(orders) > 6:
             orders = rnd.sample(orders, 6)
         for order in orders:
@@ -191,7 +192,7 @@ def run(ctx):
     for i in range(n):
         gp = pg.program()
         prog = self_check(ctx, gp)
-        if prog is None or len(set(prog.splitters or [])) != len(prog.splitters or []):
+        if prog is None:
             continue
         c = im.construct(gp.text)
         if c[0] != "ok":
